@@ -112,7 +112,14 @@ fn main() {
     let mut done = 0usize;
     for h in 0..nh {
         let hroot = root.fork(1_000_000 + h as u64);
-        let mut world = World::new();
+        let mut world = match World::try_new() {
+        Ok(w) => w,
+        Err(msg) => {
+            report.oracle_failure(0, "", &format!("the engine failed while bootstrapping the ledger and creating accounts: {}", msg.chars().take(400).collect::<String>()), json!({"phase": "bootstrap", "seed": args.seed}));
+            report.write(&args.out).unwrap();
+            return;
+        }
+    };
         let mut pre = scan(world.db());
         let n = per.min(args.cases - done.min(args.cases)).max(1);
         for i in 0..n {
